@@ -189,6 +189,13 @@ def is_zero(e, assume_pos=(), deep=True):
         x = sp.radsimp(sp.expand(e))
         if x == 0:
             return True
+        x = sp.Add(*[sp.simplify(t) for t in sp.Add.make_args(e)])
+        if x == 0 or sp.simplify(x) == 0:
+            return True
+        # polynomials under a radical are factored first: sqrt(p**2 + 2*p*q + q**2) is p + q for positive p, q
+        x = sp.simplify(e).replace(lambda t: t.is_Pow and t.exp == sp.S.Half, lambda t: sp.sqrt(sp.factor(t.base)))
+        if x == 0 or sp.simplify(x) == 0:
+            return True
     except Exception:
         pass
     return False
@@ -532,6 +539,43 @@ class ToleranceLog:
         return out
 
 
+def _arange(*a, **k):
+    """np.arange on concrete numbers: start + i*step for i < ceil((stop - start) / step)"""
+    if any(kk != 'dtype' for kk in k):
+        raise Opaque('np.arange keyword(s) %s are outside the model' % sorted(k))
+    v = [sp.sympify(x) for x in a]
+    if not v or len(v) > 3 or not all(x.is_number and x.is_real for x in v):
+        raise Opaque('np.arange with non-numeric bounds')
+    start, stop, step = (sp.Integer(0), v[0], sp.Integer(1)) if len(v) == 1 else (v[0], v[1], v[2] if len(v) == 3 else sp.Integer(1))
+    if step == 0:
+        raise WouldRaise('np.arange with a zero step')
+    n = max(0, int(sp.ceiling((stop - start) / step)))
+    if n > 100000:
+        raise Opaque('np.arange of %d entries' % n)
+    out = np.empty(n, dtype=object)
+    for i in range(n):
+        out[i] = start + i * step
+    return out
+
+
+def _digitize(x, bins, right=False):
+    """np.digitize on concrete numbers and increasing edges: the number of edges <= x (edges < x with right=True)"""
+    b = [sp.sympify(e) for e in np.ravel(np.asarray(bins, dtype=object))]
+    xs = np.asarray(x, dtype=object)
+    if not all(e.is_number for e in b) or not all(sp.sympify(e).is_number for e in xs.flat):
+        raise Opaque('np.digitize of symbolic values')
+    if any(not (b[i] < b[i + 1]) for i in range(len(b) - 1)):
+        raise Opaque('np.digitize with edges that are not strictly increasing')
+    r = bool(right)
+    f = lambda e: sp.Integer(sum(1 for t in b if (t < e if r else t <= e)))
+    if xs.ndim == 0:
+        return f(sp.sympify(xs.item()))
+    out = np.empty(xs.shape, dtype=object)
+    for i, e in enumerate(xs.flat):
+        out.flat[i] = f(sp.sympify(e))
+    return out
+
+
 NP_FUNCS = {
     'numpy.array': _array, 'numpy.asarray': _asarr, 'numpy.asanyarray': _asarr,
     'numpy.zeros': _zeros, 'numpy.empty': _zeros, 'numpy.ones': _ones,
@@ -540,7 +584,7 @@ NP_FUNCS = {
     'numpy.atleast_2d': lambda x: np.atleast_2d(np.asarray(x, dtype=object)), 'numpy.atleast_1d': lambda x: np.atleast_1d(np.asarray(x, dtype=object)),
     'numpy.float64': lambda x: x, 'numpy.int64': lambda x: x,
     'numpy.full': lambda shape, v, **k: _fill(shape, v),
-    'numpy.identity': _identity, 'numpy.eye': _identity, 'numpy.arange': lambda *a, **k: arr([sp.Integer(i) for i in range(*[int(x) for x in a])]) if len(range(*[int(x) for x in a])) else np.empty(0, dtype=object),
+    'numpy.identity': _identity, 'numpy.eye': _identity, 'numpy.arange': lambda *a, **k: _arange(*a, **k), 'numpy.digitize': lambda x, bins, right=False: _digitize(x, bins, right),
     'numpy.cos': lambda x: vmap(sp.cos, x), 'numpy.sin': lambda x: vmap(sp.sin, x), 'numpy.tan': lambda x: vmap(sp.tan, x),
     'numpy.arctan': lambda x: vmap(sp.atan, x), 'numpy.arctan2': lambda y, x: sp.atan2(y, x),
     'numpy.arccos': lambda x: vmap(sp.acos, x), 'numpy.arcsin': lambda x: vmap(sp.asin, x),
@@ -1909,6 +1953,10 @@ class SymEval:
                         if self.try_depth > 0:
                             raise _PyRaise('ValueError', e)
                         raise WouldRaise('ValueError: %s in store into %s' % (e, norm(t)))
+                    if isinstance(e, IndexError) and 'out of bounds' in str(e):   # a slot outside the array: an IndexError (memory corruption where bounds checks are compiled out)
+                        if self.try_depth > 0:
+                            raise _PyRaise('IndexError', e)
+                        raise WouldRaise('IndexError: %s in store into %s' % (e, norm(t)))
                     raise Opaque('store into %s: %s' % (norm(t), e))
             elif isinstance(base, (sp.Basic, int, float, tuple, str)) and not isinstance(base, bool):
                 # a number (numpy scalar), tuple or str does not support item assignment
@@ -2193,6 +2241,8 @@ def _generic(e):
 
 def _intidx(x):
     """an index array of exact integers (or decided booleans) as a numpy index array"""
+    if is_arr(x) and x.dtype == object and not x.size:
+        return np.zeros(x.shape, dtype=int)            # nothing selected (element types of empty arrays are not tracked)
     if is_arr(x) and x.dtype == object and x.size:
         flat = [_generic(e) for e in x.ravel()]
         if all(isinstance(e, (bool, np.bool_)) or e is sp.true or e is sp.false for e in flat):
